@@ -88,6 +88,15 @@ type GhostDecl struct {
 	Line     int
 }
 
+// Guarded declares that a field may only be used while the mutex in another field of the same object is held.
+type Guarded struct {
+	Field, Mutex string // "pkgpath.Type.field"
+	Except       []string // functions (short names) in which the rule is not applied, with the reason in the contract file
+	Tags         []string
+	File         string
+	Line         int
+}
+
 type FieldsCopied struct {
 	Func string // canonical function name
 	Tags []string
@@ -104,6 +113,7 @@ type Contracts struct {
 	FCopied []*FieldsCopied
 	Axioms  []*Clause
 	TypeInvs []*Clause
+	Guarded  []*Guarded
 	pureMemo map[*ssa.Function]int
 	Defines  map[string]string // $NAME macros (textual)
 	Files   []string
@@ -114,7 +124,7 @@ var tagRe = regexp.MustCompile(`\s*\[((?:C\d+)(?:\s*,\s*C\d+)*)\]\s*$`)
 
 var clauseKeywords = map[string]bool{
 	"func": true, "requires": true, "ensures": true, "modifies": true, "pure": true, "trusted": true,
-	"loop": true, "site": true, "ghost": true, "nonnil": true, "nilable": true, "fields_copied": true,
+	"loop": true, "site": true, "ghost": true, "nonnil": true, "guarded_by": true, "nilable": true, "fields_copied": true,
 	"sweep": true, "package": true, "axiom": true, "allow": true, "witness": true, "nosafety": true,
 	"deferrule": true, "skipfield": true, "preserves": true, "typeinv": true, "updates": true, "deterministic": true, "init": true, "nosite": true, "blocks": true, "define": true, "fnspec": true, "result": true, "param": true, "implements": true,
 }
@@ -586,6 +596,16 @@ func (cs *Contracts) parseFile(path, pkg string, external bool) error {
 				return fail("ghost %s already declared at %s:%d", gd.Name, old.File, old.Line)
 			}
 			cs.Ghosts[gd.Name] = gd
+		case "guarded_by":
+			w := strings.Fields(rest)
+			if len(w) < 2 || (len(w) > 2 && w[2] != "except") {
+				return fail("guarded_by <Type.field> <Type.mutexField> [except <func> ...]")
+			}
+			g := &Guarded{Field: pkg + "." + w[0], Mutex: pkg + "." + w[1], Tags: tags, File: path, Line: rc.line}
+			if len(w) > 3 {
+				g.Except = w[3:]
+			}
+			cs.Guarded = append(cs.Guarded, g)
 		case "nonnil":
 			for _, n := range strings.Fields(strings.ReplaceAll(rest, ",", " ")) {
 				if strings.HasPrefix(n, "elem:") || strings.Contains(n, "/") {
@@ -616,6 +636,11 @@ func (cs *Contracts) parseFile(path, pkg string, external bool) error {
 			cs.Witness = append(cs.Witness, rest)
 		default:
 			return fail("unknown clause keyword %q", kw)
+		}
+		if cur != nil && kw != "func" && kw != "fnspec" && kw != "axiom" && kw != "typeinv" {
+			for _, t := range tags {
+				cur.Tags[t] = true
+			}
 		}
 	}
 	return nil
